@@ -857,7 +857,7 @@ var FieldWriteMap = `
 {{- $isBaseVal := .ValCtx.Type | IsBaseType -}}
 {{- $curFieldMask := .FieldMask -}}
 	{{- if and Features.WithFieldMask (or $isStrKey $isIntKey) }}
-	if !{{.FieldMask}}.All() {
+	if {{.FieldMask}}.Exist() {
 		l := len({{.Target}})
 		for k := range {{.Target}} {
 			{{- if $isIntKey}}
@@ -874,6 +874,22 @@ var FieldWriteMap = `
 			{{- .KeyCtx.Type | GetTypeIDConstant -}}
 			, thrift.{{- .ValCtx.Type | GetTypeIDConstant -}}
 			, l); err != nil {
+			return err
+		}
+	} else {
+		if err := oprot.WriteMapBegin(thrift.
+			{{- .KeyCtx.Type | GetTypeIDConstant -}}
+			, thrift.{{- .ValCtx.Type | GetTypeIDConstant -}}
+			, len({{.Target}})); err != nil {
+			return err
+		}
+	}
+	{{- else if Features.WithFieldMask}}
+	if _, ex := {{.FieldMask}}.Int(0); !ex {
+		if err := oprot.WriteMapBegin(thrift.
+			{{- .KeyCtx.Type | GetTypeIDConstant -}}
+			, thrift.{{- .ValCtx.Type | GetTypeIDConstant -}}
+			, 0); err != nil {
 			return err
 		}
 	} else {
@@ -930,7 +946,7 @@ var FieldWriteSet = `
 {{- $isBaseVal := .ValCtx.Type | IsBaseType -}}
 {{- $curFieldMask := .FieldMask -}}
 		{{- if Features.WithFieldMask}}
-		if !{{.FieldMask}}.All() {
+		if {{.FieldMask}}.Exist() {
 			l := len({{.Target}})
 			for i := 0; i < len({{.Target}}); i++ {
 				if _, ex := {{.FieldMask}}.Int(i); !ex {
@@ -1000,7 +1016,7 @@ var FieldWriteList = `
 {{- $isBaseVal := .ValCtx.Type | IsBaseType -}}
 {{- $curFieldMask := .FieldMask -}}
 	{{- if Features.WithFieldMask}}
-	if !{{.FieldMask}}.All() {
+	if {{.FieldMask}}.Exist() {
 		l := len({{.Target}})
 		for i := 0; i < len({{.Target}}); i++ {
 			if _, ex := {{.FieldMask}}.Int(i); !ex {
